@@ -455,8 +455,8 @@ static int _GD_UpdateAffixes(DIRFILE *D, int index, char *nsin, size_t nsl,
   if (nsl)
     ns[--nsl] = 0;
 
-  /* Finish up the suffix */
-  if (P->sx)
+  /* Finish up the suffix (sx is only allocated when the suffix changes) */
+  if (sxin && P->sx)
     memcpy(sx + sxl, P->sx, P->sxl + 1); /* including the trailing NUL */
 
   /* update the fragment itself, at the end */
